@@ -221,7 +221,8 @@ impl AssemblyCode {
                             cycles: inst.cycles,
                             cycles_alt: inst.cycles_alt,
                             nb_bytes: inst.nb_bytes,
-                            protected: false,
+                            // A protected branch (the BEQ of the > sequence) stays protected
+                            protected: inst.protected,
                         }));
                     }
                     _ => self.code.push(i.clone()),
